@@ -1,8 +1,8 @@
 package props
 
 import (
-	"os"
 	"fmt"
+	"os"
 	"reflect"
 	"strconv"
 	"strings"
